@@ -493,6 +493,31 @@ func init() {
 		}
 		return fr.concretiseStringCall(fl, atoi)
 	}
+	externals["strconv.ParseInt"] = func(fr *frame, args []value) value {
+		base := int(fr.concreteInt(args[1], "base"))
+		bits := int(fr.concreteInt(args[2], "bitSize"))
+		parse := func(s string) value {
+			n, err := strconv.ParseInt(s, base, bits)
+			if err != nil {
+				return tuple{n, fr.i.newError(err.Error())}
+			}
+			return tuple{n, iface{}}
+		}
+		if s, ok := args[0].(string); ok {
+			return parse(s)
+		}
+		ss := args[0].(SymString)
+		// the canonical decimal text of an integer parses back to it in base 10
+		// and in base 0 (no leading zeros, no prefix)
+		if len(ss.S) == 1 && ss.S[0].K == SegInt && (base == 10 || base == 0) && (bits == 0 || bits == 64) {
+			return tuple{mkScalar(ss.S[0].T, types.Int64), iface{}}
+		}
+		fl := fr.i.ex.flatten(ss)
+		if s, ok := fl.(string); ok {
+			return parse(s)
+		}
+		return fr.concretiseStringCall(fl, parse)
+	}
 	externals["strconv.Itoa"] = func(fr *frame, args []value) value {
 		return mkString(intSegs(args[0]))
 	}
@@ -630,7 +655,21 @@ func init() {
 		if x, ok := args[0].(float64); ok {
 			return math.Signbit(x)
 		}
-		panic(pathAbort{"unsupported", "math.Signbit on a symbolic value"})
+		sf, ok := args[0].(SymFloat)
+		if !ok {
+			panic(pathAbort{"unsupported", "math.Signbit on a symbolic value"})
+		}
+		t := FpToFp(sf.T, SF64)
+		if t.Op == OpFpFromBits {
+			return mkScalar(Eq(Extract(t.Args[0], 63, 63), BvConst(1, 1)), types.Bool)
+		}
+		if fr.i.ex.Branch(FpIsNaN(t)) {
+			// the sign of a computed NaN is not modelled: either
+			return fr.i.ex.Branch(mkFreshBool(fr, "nan-sign"))
+		}
+		zero, one := F64Const(0), F64Const(1)
+		neg := Or(FpLt(t, zero), And(FpEq(t, zero), FpLt(FpDiv(one, t), zero)))
+		return mkScalar(neg, types.Bool)
 	}
 }
 
@@ -646,3 +685,8 @@ func (fr *frame) concretiseStringCall(s value, f func(string) value) value {
 }
 
 var _ = fmt.Sprint
+
+func mkFreshBool(fr *frame, what string) *Term {
+	b := fr.i.ex.Fresh(what, "aux", SBV, 1)
+	return Eq(b, BvConst(1, 1))
+}
